@@ -11,8 +11,12 @@ Trace == ndJsonDeserialize(TraceFile)
 
 FS == INSTANCE FsStruct
 
-VARIABLES l, s, bad, seg, ctx, fr
-vars == <<l, s, bad, seg, ctx, fr>>
+VARIABLES l, s, bad, seg, ctx, fr, H, Dur
+vars == <<l, s, bad, seg, ctx, fr, H, Dur>>
+
+(* H (only in segments that contain crash probes): the abstract tree after each call,   *)
+(* H[1] = initial, H[j+1] = after the j-th call; Dur[j+1] = index into H of the state   *)
+(* that is durable once j calls have returned.                                           *)
 
 (* fr: the last structural snapshot's frame and what happened since ("none": nothing, *)
 (* "failed": only failed calls, "other": anything else) - a failed call must leave the  *)
@@ -23,15 +27,21 @@ NoFr == [valid |-> FALSE, frame |-> <<>>, since |-> "none"]
 (* the properties that speak about "everything observable afterwards".            *)
 CtxRules == (IF "failed" \in ctx THEN <<"C09:after-failed-operation">> ELSE <<>>)
             \o (IF "restart" \in ctx THEN <<"C10:after-restart">> ELSE <<>>)
+            \o (IF "crash" \in ctx THEN <<"C01,C07:after-crash">> ELSE <<>>)
 
 Dummy == InitState("", TRUE)
 
-TInit == l = 1 /\ s = Dummy /\ bad = TRUE /\ seg = 0 /\ ctx = {} /\ fr = NoFr
+TInit == l = 1 /\ s = Dummy /\ bad = TRUE /\ seg = 0 /\ ctx = {} /\ fr = NoFr /\ H = <<>> /\ Dur = <<>>
 
 Report(line, rules, e) ==
   PrintT("VIOL " \o ToJson([line |-> line, seg |-> seg, rules |-> rules \o CtxRules,
                             ev |-> e.ev, proc |-> IF "proc" \in DOMAIN e THEN e.proc ELSE "",
                             i |-> IF "i" \in DOMAIN e THEN e.i ELSE -1,
+                            detail |-> IF e.ev = "crashprobe" /\ e.invoked + 1 <= Len(H) /\ e.acked + 1 <= Len(Dur) /\ e.ok
+                                       THEN [lo |-> Dur[e.acked + 1], hi |-> e.invoked + 1,
+                                             per |-> [k \in Dur[e.acked + 1]..(e.invoked + 1) |-> DumpRules(H[k], e.dump)],
+                                             bad |-> DumpBad(H[e.invoked + 1], e.dump), badlo |-> DumpBad(H[Dur[e.acked + 1]], e.dump)]
+                                       ELSE <<>>,
                             want |-> IF e.ev = "call" /\ e.proc = "READ" /\ ObjOf(s, e.fh) # 0 /\ ~e.offsat
                                      THEN RRead(s.objs[ObjOf(s, e.fh)].data, e.off, e.cnt) ELSE <<>>]))
 
@@ -44,19 +54,43 @@ Recover(e, extra) ==
           /\ bad' = TRUE /\ s' = s
      ELSE /\ s' = AfterRecovery(s, c[k]) /\ bad' = FALSE
 
+ProbeRules(e) ==
+  IF e.invoked + 1 > Len(H) \/ e.acked + 1 > Len(Dur) THEN <<>>     \* the segment was abandoned before this call
+  ELSE IF ~e.ok THEN <<"C01:recovery-failed">>
+  ELSE LET lo == Dur[e.acked + 1]
+           hi == e.invoked + 1
+       IN (IF \E k \in lo..hi : DumpMatches(H[k], e.dump) THEN <<>>
+           ELSE <<"C01,C07:recovered-state-is-not-a-prefix-containing-every-stable-operation">> \o DumpRules(H[hi], e.dump))
+          \o FS!StructRules(e.snap)
+
+(* crash in a continuation segment: the state becomes a durable-or-later prefix, possibly *)
+(* including the call that was in flight, bound from the dump                              *)
+RecoverCrash(e) ==
+  LET c0 == Candidates(s, <<>>)
+      k  == MatchIdx(c0, e.dump)
+      inf == Len(e.inflight) > 0 /\ Check(s, e.inflight[1]) = <<>>
+      sx == IF inf THEN Next(s, e.inflight[1]) ELSE s
+  IN IF k # 0 THEN s' = AfterRecovery(s, c0[k]) /\ bad' = FALSE
+     ELSE IF inf /\ DumpMatches(sx.objs, e.dump) THEN s' = AfterRecovery(sx, sx.objs) /\ bad' = FALSE
+     ELSE /\ Report(l, <<"C01,C07:recovered-state-is-not-a-prefix-containing-every-stable-operation">> \o DumpRules(s.objs, e.dump), e)
+          /\ bad' = TRUE /\ s' = s
+
 Consume ==
   /\ l <= Len(Trace)
   /\ l' = l + 1
   /\ LET e == Trace[l] IN
      IF e.ev = "reset"
      THEN /\ s' = InitState(e.root, e.unstable) /\ bad' = FALSE /\ seg' = e.seg /\ ctx' = {} /\ fr' = NoFr
+          /\ H' = IF e.keephist THEN <<InitState(e.root, e.unstable).objs>> ELSE <<>>
+          /\ Dur' = IF e.keephist THEN <<1>> ELSE <<>>
      ELSE /\ seg' = seg
           /\ fr' = IF e.ev = "snap" THEN [valid |-> e.idle /\ e.running, frame |-> FS!Frame(e), since |-> "none"]
                    ELSE IF e.ev = "call" /\ e.st # "OK" /\ fr.since \in {"none", "failed"} THEN [fr EXCEPT !.since = "failed"]
                    ELSE IF e.ev = "call" /\ e.proc \in {"GETATTR", "LOOKUP", "ACCESS", "READLINK", "READDIR", "READDIRPLUS", "FSINFO", "PATHCONF", "NULL"} THEN fr
                    ELSE [fr EXCEPT !.since = "other"]
           /\ ctx' = IF e.ev = "call" /\ e.st # "OK" /\ Mutating(e) THEN ctx \cup {"failed"}
-                    ELSE IF e.ev = "restart" THEN ctx \cup {"restart"} ELSE ctx
+                    ELSE IF e.ev = "restart" THEN ctx \cup {"restart"}
+                    ELSE IF e.ev = "crash" THEN ctx \cup {"crash"} ELSE ctx
           /\ IF bad THEN UNCHANGED <<s, bad>>
              ELSE CASE e.ev = "call" ->
                          LET v == Check(s, e) IN
@@ -74,12 +108,22 @@ Consume ==
                                       THEN <<"C09:failed-operation-changed-disk-or-allocators">> ELSE <<>>)
                          IN IF v = <<>> THEN UNCHANGED <<s, bad>>
                             ELSE Report(l, v, e) /\ UNCHANGED <<s, bad>>   \* the abstract state is still in step: go on
+                    [] e.ev = "crashprobe" ->
+                         LET v == ProbeRules(e) IN
+                         IF v = <<>> THEN UNCHANGED <<s, bad>> ELSE Report(l, v, e) /\ UNCHANGED <<s, bad>>
+                    [] e.ev = "crash" ->
+                         LET v == FS!StructRules(e.snap) IN
+                         (IF v = <<>> THEN TRUE ELSE Report(l, v, e)) /\ RecoverCrash(e)
                     [] e.ev = "freecheck" ->
                          IF e.freeb + e.rootblocks - 1 = e.freeb0 /\ e.freei = e.freei0 /\ DOMAIN s.objs = {RootId} THEN UNCHANGED <<s, bad>>
                          ELSE Report(l, <<"C05:free-space-not-back-to-initial-after-deleting-everything">>, e) /\ bad' = TRUE /\ s' = s
                     [] e.ev = "restart" -> Recover(e, <<>>)
                     [] e.ev = "fatal" -> Report(l, <<"ALL,C11:server-died">>, e) /\ bad' = TRUE /\ s' = s
                     [] OTHER -> UNCHANGED <<s, bad>>
+          /\ IF H # <<>> /\ e.ev = "call" /\ ~bad
+             THEN H' = Append(H, s'.objs)
+                  /\ Dur' = Append(Dur, IF s'.hist = <<>> \/ bad' THEN Len(H) + 1 ELSE s'.histn[1])
+             ELSE UNCHANGED <<H, Dur>>
 
 Done == l = Len(Trace) + 1 /\ UNCHANGED vars
 
